@@ -36,7 +36,7 @@
 //
 //	vtx <F|S> <lo|hi> <fee> <msg> [<msg>...]
 //	vsim <hi> <fee> <msg> [<msg>...]
-//	vq get|bad <ca|cb>
+//	vq get|bad|poke <ca|cb>          (bad: mutates, then panics; poke: mutates and returns)
 //	vrestart
 //	msg:  dep;<acct>;<ca|cb|lib|use|ip|ipw|bad>;<1|2>;<d|s>
 //	      call;<acct>;<ca|cb>;<inc|incpanic|grow|spin>;<n>;<d|s>
@@ -102,7 +102,7 @@ type vop struct {
 	gas  int64
 	fee  int64
 	msgs []vmsg
-	q    string // get bad
+	q    string // get bad poke
 	rlm  string
 }
 
@@ -255,7 +255,7 @@ func vParse(t []string) (*vop, bool) {
 	case "vrestart":
 		return op, len(t) == 1
 	case "vq":
-		if len(t) != 3 || (t[1] != "get" && t[1] != "bad") || (t[2] != "ca" && t[2] != "cb") {
+		if len(t) != 3 || (t[1] != "get" && t[1] != "bad" && t[1] != "poke") || (t[2] != "ca" && t[2] != "cb") {
 			return nil, false
 		}
 		op.q, op.rlm = t[1], t[2]
@@ -349,6 +349,12 @@ func Get() int { return n }
 func Bad() int {
 	n += 1000
 	panic("bad query")
+}
+
+func Poke() int {
+	n += 1000
+	log = append(log, "poke")
+	return n
 }
 
 func Render(path string) string { return strconv.Itoa(n) + ":" + strconv.Itoa(len(log)) }
@@ -1039,10 +1045,7 @@ func vmExec(t []string) (string, string) {
 		return "ok", verdict
 
 	case "vq":
-		expr := ".Get()"
-		if op.q == "bad" {
-			expr = ".Bad()"
-		}
+		expr := map[string]string{"get": ".Get()", "bad": ".Bad()", "poke": ".Poke()"}[op.q]
 		out := "q:err"
 		if bz, ok := vA.query("vm/qeval", []byte(vPkgPath(c.ns, op.rlm)+expr)); ok {
 			if s, ok := parseIntResult(bz); ok {
